@@ -184,6 +184,7 @@ func runDryRun(r *run) error {
 			mu.Lock()
 			defer mu.Unlock()
 			r.count("dryrun/" + j.sp.Arr + "/" + res.Outcome)
+			r.emit("noop", j.sp.ID, []string{strings.Join(j.sp.Args, " ")}, "ok", true)
 			for _, s := range j.sit {
 				r.count("situation/" + s)
 			}
